@@ -289,14 +289,41 @@ POINTWISE = [(f, o) for f, o in makers.PROX_CASES if f in ('proximal_l1', 'proxi
                                                              'proximal_convex_conj_l1', 'proximal_box_constraint', 'proximal_huber', 'proximal_const_func')]
 
 
+
+def unit_functional_pool_bounded():
+    """BOUNDED stand-in (never counted as proved) for the built-in functionals outside the deductive units (sort / SVD / group-norm based closed forms,
+    weighted power spaces, domains with several axes): one small instance per functional x space in contracts/funcpool.py, fixed random inputs: p = f.proximal(sigma)(x) has finite f(p), no probe z has a smaller f(z) + ||z - x||^2 / (2 sigma) in the norm of the space, in-place == out-of-place"""
+    def run(ctx):
+        from contracts import funcpool
+        for name in sorted(funcpool.pool()):
+            try:
+                bad, n = funcpool.check_prox(name)
+            except Exception as e:
+                bad, n = 'check raised %s: %s' % (type(e).__name__, str(e)[:200]), 1
+            if n == 0 and not bad:
+                continue
+            ctx.evals += max(n - 1, 0)
+            ctx.bounded('built-in functional: the proximal returns the minimiser', not bad, {'functional': name}, detail=bad)
+    return Unit('functional-pool/prox', run, funcs=['odl.solvers.functional.default_functionals:*', 'odl.solvers.nonsmooth.proximal_operators:*'], kind='B',
+                bounded_in='one small instance per built-in functional x space in contracts/funcpool.py (130 entries), 2 step sizes x 3 random points x ~60 probes')
+
+
 def units(tier, seed):
     us = [unit_pointwise(f, o) for f, o in POINTWISE]
     us += [unit_kl(False), unit_kl(True), unit_l2(False), unit_l2(True)]
     us += [unit_calculus(k) for k in CALC]
+    us.append(unit_functional_pool_bounded())
     us.append(unit_canary())
     return us
 
 
 def replay(ob):
+    if ob.get('unit', '').startswith('functional-pool/'):
+        from contracts import funcpool
+        try:
+            bad = funcpool.check_prox((ob.get('model') or {}).get('functional'))[0]
+        except Exception as e:
+            bad = 'raised %s: %s' % (type(e).__name__, e)
+        return {'reproduced': bool(bad), 'detail': bad or 'holds natively', 'input': ob.get('model')}
     from contracts import replay_c07
     return replay_c07.replay(ob)
